@@ -7,6 +7,6 @@ import veriflib as V
 out = {}
 for pid in sorted(open(os.path.join(V.VERIF, "checks", "READY")).read().split()):
     cfg = V.load_config(pid)
-    out[pid] = V.theorems_of(cfg.PROPS)
+    out[pid] = V.theorems_of(cfg.PROPS) + (V.theorems_of(cfg.PROPS_SRC) if getattr(cfg, "PROPS_SRC", None) else [])
 json.dump(out, open(os.path.join(V.VERIF, "checks", "required_theorems.json"), "w"), indent=1)
 print({k: len(v) for k, v in out.items()})
